@@ -434,6 +434,31 @@ class PythonRegex(regex.Regex):
         self._python_regex = "".join(regex_temp)
 
     def _replace_shortcuts(self):
-        for to_replace, replacement in SHORTCUTS.items():
-            self._python_regex = self._python_regex.replace(to_replace,
-                                                            replacement)
+        # The regex is read symbol by symbol: a textual replacement would
+        # also rewrite an escaped blank, and would nest brackets when a
+        # shortcut is used inside a set
+        regex_temp = []
+        in_brackets = False
+        escaped = False
+        for symbol in self._python_regex:
+            if escaped:
+                escaped = False
+                replacement = SHORTCUTS.get("\\" + symbol)
+                if replacement is None:
+                    regex_temp.append("\\" + symbol)
+                elif in_brackets:
+                    # Only the content of the set
+                    regex_temp.append(replacement[1:-1])
+                else:
+                    regex_temp.append(replacement)
+            elif symbol == "\\":
+                escaped = True
+            else:
+                if symbol == "[":
+                    in_brackets = True
+                elif symbol == "]":
+                    in_brackets = False
+                regex_temp.append(SHORTCUTS[" "] if symbol == " " else symbol)
+        if escaped:
+            regex_temp.append("\\")
+        self._python_regex = "".join(regex_temp)
